@@ -374,6 +374,7 @@ func checkRecoveryProcedure(c *Ctx, p *Prog, rule, dir string) {
 
 func runC07(c *Ctx) {
 	p := c.RepoProg()
+	checkSymbolNamespace(c, p, "R07.5")
 	if !gmHealth(c, p, "R07.0") {
 		return
 	}
